@@ -36,16 +36,28 @@ def handle : List String → String
     match parseMode m with
     | some mode => showOpt (convertFrom (cps enc) mode (cps bs))
     | none => "bad-op"
-  | ["markup", known, m, bs] =>
+  | ["dammit", known, declared, m, bs] =>
     match parseMode m with
     | some mode =>
-      let r := unicodeMarkup ((splitNE ";" known).map cps) mode (cps bs)
-      s!"{showOpt r.1} repl={bit r.2}"
+      let ks := (splitNE ";" known).map cps
+      let d := if declared == "-" then none else some (cps declared)
+      let listed := (ks ++ d.toList).all namesListed
+      let o := match unicodeDammit ks d mode (cps bs) with
+        | .ok u repl enc => s!"ok {showL u} repl={bit repl} enc={match enc with | some e => showL e | none => "none"}"
+        | .failed => "failed"
+        | .beyond => "beyond"
+      s!"{o} listed={bit listed}"
     | none => "bad-op"
+  | ["findcodec", name] =>
+    s!"{showOpt (findCodec (cps name))} listed={bit (namesListed (cps name))} carrier={bit ((findCodec (cps name)).any isCarrier)}"
+  | ["stripbom", bs] =>
+    let r := stripBom (cps bs)
+    s!"{showL r.1} {showOpt r.2}"
   | ["unescape", s] =>
     match unescapeRef (cps s) with
     | some c => s!"some {c}"
     | none => "none"
+  | ["unescapeall", s] => showL (unescapeAll (cps s))
   | ["cp1252", b] =>
     match b.toNat?.bind cp1252At with
     | some c => s!"some {c}"
